@@ -816,7 +816,7 @@ def dev(argv):
                 rel = os.path.relpath(os.path.join(root, f), base)
                 for m in re.finditer(r"fn (probe_\w+)\(\)", open(os.path.join(root, f)).read()):
                     if any(p in m.group(1) for p in pats):
-                        obls.append({"name": m.group(1), "harness": module_path(rel) + "::" + m.group(1), "engine": "kani", "props": [], "class": "bounded"})
+                        obls.append({"name": m.group(1), "harness": module_path(rel) + "::" + m.group(1), "engine": "kani", "props": [], "class": "bounded", "loops": os.environ.get("VERIF_PROBE_LOOPS")})
     jobs = int(os.environ.get("VERIF_JOBS", "8"))
     mem_gb = int(os.environ.get("VERIF_MEM_GB", "8"))
     htimeout = int(os.environ.get("VERIF_HARNESS_TIMEOUT", "600"))
